@@ -155,7 +155,7 @@ def build_driver():
     stamp = os.path.join(od, 'stamp')
     if os.path.exists(stamp) and open(stamp).read() == hh and os.path.exists(DRIVER):
         return True, 'cached'
-    ok, lg = coq_make(['theories/Probe.vo'])
+    ok, lg = coq_make(['theories/Probe.vo', 'theories/Load.vo'])
     if not ok:
         return False, lg
     r = sh(['timeout', '600', 'coqc', '-Q', os.path.join(COQ, 'gen'), 'Aby', '-Q', os.path.join(COQ, 'theories'), 'Aby',
@@ -198,7 +198,8 @@ MODEL_FEATURES = {}      # which paths of the model the histories of this run ex
 
 
 def run_model(opsfile, timeout=600, dump=None):
-    cmd = [DRIVER, 'run', opsfile]
+    # the extracted list functions are not tail recursive: run the model with an unlimited stack
+    cmd = ['bash', '-c', 'ulimit -s unlimited 2>/dev/null; exec "$0" "$@"', DRIVER, 'run', opsfile]
     if dump:
         cmd += ['--dump', dump]
     ff = opsfile + '.features'
